@@ -169,6 +169,13 @@ where
     }
 }
 
+#[cfg(bma400_verif)]
+impl FifoConfig {
+    pub(crate) fn verif_visit(&mut self, f: &mut dyn FnMut(u8, u8) -> Option<u8>) {
+        verif_visit_fields!(self, f, fifo_config0: FifoConfig0, fifo_config1: FifoConfig1, fifo_config2: FifoConfig2, fifo_pwr_config: FifoPwrConfig);
+    }
+}
+
 #[cfg(test)]
 mod tests {
     use super::*;
